@@ -1,8 +1,8 @@
 SPECIFICATION Spec
 CONSTANTS
   Proc = {"w1", "x"}
-  Roots <- RootsC
-  Kids <- KidsC
+  Roots <- RootsS
+  Kids <- KidsS
   MaxPacks = 4
   MaxIdx = 4
   MaxSnaps = 2
@@ -11,7 +11,7 @@ CONSTANTS
   CanPrune = {"x"}
   CanForget = {"x"}
   CanTag = {}
-  Budget <- Budget3
+  Budget <- BudgetP
   Variant = "prune_drop_index_first"
 VIEW View
 INVARIANTS
